@@ -28,6 +28,8 @@ LEVEL_TEXT += ' Added clauses: literal operands and the generated configuration 
 TECHNIQUE += '; named-value agreement (naming context managers clear last_node before their block, every emitted wrapper is a frame or delegates to a primitive, leaf value = last_node, values returned from discarded frames)'
 LEVEL_TEXT += ' Added clause: a name binds the value of its own expression in generated code (not a stale last node, not the last element of a group); the residual `x:&e` difference is a known finding.'
 TECHNIQUE += '; frames of the generated-only context managers (= C05.R3)'
+TECHNIQUE += '; exhaustive interpretation of regexpp over the quoting alphabet (every valid regex over {backslash, \', ", a} <= 5/6 and with LF <= 4/5): returns, and the literal parses to the same regex tree'
+LEVEL_TEXT += " Added clause: a pattern literal never fails to be written and means the model's pattern (two verbose-mode inputs are known findings)."
 LEVEL_NOTE = ('Trusted: repr() escapes every non-printable character; str.splitlines() breaks at \\n \\r \\v \\f \\x1c \\x1d \\x1e \\x85 '
               '\\u2028 \\u2029; str.expandtabs() rewrites TAB.')
 EXPLANATION = ('Static analysis of /repo sources, TatSu not imported. walk_* methods of PythonParserGenerator and _parse methods '
@@ -477,7 +479,7 @@ def r4_emission(a, tier):
     rep.add({'printer_splits_lines': splits or trim_splits, 'printer_expands_tabs': prints_trim and expands, 'hazard_characters': sorted(map(repr, hazard))})
     rp = a.p.func('tatsu.util.regextools.regexpp')
     tables = []
-    for n in walk_no_defs(rp.node):
+    for n in ast.walk(rp.node):  # the table may be applied inside a lambda / nested helper (re.sub callback)
         if isinstance(n, ast.Call) and isinstance(n.func, ast.Attribute) and n.func.attr in ('get', 'translate') and \
                 isinstance(n.func.value, ast.Name if n.func.attr == 'get' else ast.expr):
             src = n.func.value if n.func.attr == 'get' else (n.args[0] if n.args else None)
@@ -489,7 +491,7 @@ def r4_emission(a, tier):
         raise AnalysisError('regexpp: cannot find its escape table (dict .get / str.translate)')
     # (a2) every replacement MEANS the character it replaces, as a regex, whatever follows it: the pattern of the generated parser is
     #      the pattern of the model (`\\b` is a word boundary, not a backspace; `\\0` followed by a digit is an octal escape)
-    for n in walk_no_defs(rp.node):
+    for n in ast.walk(rp.node):
         for src in ([n.func.value] if isinstance(n, ast.Call) and isinstance(n.func, ast.Attribute) and n.func.attr == 'get' else
                     [n.args[0]] if isinstance(n, ast.Call) and isinstance(n.func, ast.Attribute) and n.func.attr == 'translate' and n.args else []):
             items = _table_items(a, rp, src)
@@ -1116,5 +1118,105 @@ def r10_generated_frames(a, tier):
     return rep
 
 
+def regexpp_literals(a, tier, rule_id, totality_only=False):
+    """regexpp, interpreted on every valid regex over the characters that decide its quoting"""
+    import itertools
+    import re._parser as sre_parse  # noqa: PLC2701 - regex parse trees, to compare meanings
+    import warnings
+
+    from ..minieval import Raised, module_constants
+    n = 6 if tier == 'thorough' else 5
+    rep = RuleReport(
+        rule_id,
+        f'pattern literals are total and faithful: tatsu.util.regextools.regexpp, interpreted on EVERY string over {{backslash, single '
+        f'quote, double quote, a}} up to length {n}, every string over those and LF up to length {n - 1}, and three verbose-mode patterns with a literal line break, that is a valid regular expression (its re.compile / eval / re.sub run by the '
+        'interpreter of the checker), returns a raw-string literal - it does not raise - and that literal evaluates to a pattern the '
+        'regex parser reads as the same regular expression: the generated parser matches what the model matches, and a failure '
+        'message that quotes the pattern renders',
+        floor=300,
+    )
+    rp = a.p.func('tatsu.util.regextools.regexpp')
+    consts = dict(module_constants(rp.module))
+
+    def tree(pat):
+        with warnings.catch_warnings():
+            warnings.simplefilter('ignore')
+            return str(sre_parse.parse(pat))
+
+    def _compile(pat, *x, **k):
+        try:
+            with warnings.catch_warnings():
+                warnings.simplefilter('ignore')
+                return re.compile(pat, *x, **k)
+        except re.error as e:
+            raise Raised('PatternError', rp.node) from e
+        except (OverflowError, RecursionError) as e:
+            raise Raised(type(e).__name__, rp.node) from e
+
+    def _eval(src, *x):
+        try:
+            with warnings.catch_warnings():
+                warnings.simplefilter('ignore')
+                v = ast.literal_eval(src)
+        except SyntaxError as e:
+            raise Raised('SyntaxError', rp.node) from e
+        except ValueError as e:
+            raise Raised('ValueError', rp.node) from e
+        if not isinstance(v, str):
+            raise Raised('TypeError', rp.node)
+        return v
+    n_bad = n_all = 0
+    # every string over the four quoting characters up to length n, every string with line feeds up to length n - 1, and
+    # verbose-mode patterns with a literal line break (whitespace that (?x) ignores)
+    words = [''.join(t) for k in range(1, n + 1) for t in itertools.product('\\\'"a', repeat=k)]
+    words += [w for k in range(1, n) for t in itertools.product('\\\'"a\n', repeat=k) if '\n' in (w := ''.join(t))]
+    words += ['(?x)a\nb', '(?x)\na', '(?x)a\\\nb']
+    for pat in words:
+        if True:
+            try:
+                want = tree(pat)
+            except re.error:
+                continue
+            n_all += 1
+            it = ModelInterp(a, {**consts, 're': Hook(None, compile=Hook(_compile), error=re.error, Pattern=re.Pattern, **{f: getattr(re, f) for f in ('DOTALL', 'S', 'M', 'MULTILINE', 'I', 'IGNORECASE', 'X', 'VERBOSE', 'A', 'ASCII')}), 'eval': Hook(_eval), 'PatternError': re.error,
+                                 'hasattr': Hook(lambda o, nm: hasattr(o, nm) if isinstance(o, (str, re.Pattern)) else False)})
+
+            def methods(recv, name, args, kwargs, it=it):
+                if recv is it.globals['re'] and name in ('sub', 'escape', 'fullmatch', 'match', 'search', 'split', 'findall'):
+                    args = [it.as_callable(x) if isinstance(x, tuple) and x[:1] == ('<func>',) else x for x in args]
+                    return getattr(re, name)(*args, **kwargs)
+                if isinstance(recv, re.Match) and name in ('group', 'groups', 'start', 'end', 'span'):
+                    return getattr(recv, name)(*args)
+                if isinstance(recv, re.Pattern) and name in ('sub', 'match', 'search', 'fullmatch'):
+                    args = [it.as_callable(x) if isinstance(x, tuple) and x[:1] == ('<func>',) else x for x in args]
+                    return getattr(recv, name)(*args, **kwargs)
+                return NotImplemented
+            it.methods = methods
+            try:
+                out = it.call_fn(rp, [pat])
+                lit = _eval(out) if isinstance(out, str) else None
+                got = tree(lit) if lit is not None else None
+                outcome = 'same regular expression' if got == want else f'another regular expression ({lit!r})'
+            except Raised as r:
+                out, outcome = None, f'raises {r.cls_name}'
+            except re.error as e:
+                outcome = f'a literal that is not a valid pattern ({e})'
+            except Unsupported as e:
+                raise AnalysisError(f'{rule_id}: cannot interpret regexpp on {pat!r}: {e}') from e
+            ok = outcome == 'same regular expression' or (totality_only and not outcome.startswith('raises'))
+            rep.add({'pattern': pat, 'literal': out, 'outcome': outcome})
+            if not ok and n_bad < 6:
+                n_bad += 1
+                rep.fail(rp.qualname, f'regexpp:{pat!r}', f'regexpp({pat!r}) - a valid regular expression - {outcome}' + (f', literal {out}' if out else '') +
+                         ': compiling a grammar with this pattern, generating its parser or rendering a failure that quotes it does not '
+                         'give the pattern of the model', rp.loc)
+    rep.add({'valid_patterns_checked': n_all, 'failing': n_bad})
+    return rep
+
+
+def r11_regexpp_literals(a, tier):
+    return regexpp_literals(a, tier, 'C02.R11')
+
+
 RULES = [r1_exhaustive, r2_primitives, r3_rule_transfer, r4_emission, r5_context_free_emission, r6_leaf_literals, r7_generated_configuration,
-         r8_operand_correspondence, r9_named_value, r10_generated_frames]
+         r8_operand_correspondence, r9_named_value, r10_generated_frames, r11_regexpp_literals]
